@@ -1579,7 +1579,12 @@ def m_write_fmt(interp, args, info):
 @model("std::fmt::Formatter::<'a>::write_str")
 def m_write_str(interp, args, info):
     s = interp.strip(args[1])
-    interp.load(args[0]).out.append(("lit", s.s))
+    if isinstance(s, Tok):
+        interp.load(args[0]).out.append(("tok", s))        # an opaque text written as it is
+    elif isinstance(s, StrV):
+        interp.load(args[0]).out.append(("lit", s.s))
+    else:
+        raise Inconclusive("write_str of %r" % (s,), interp.where())
     return ok(UNIT)
 
 
@@ -1641,12 +1646,23 @@ def m_str_len(interp, args, info):
     if isinstance(s, StrV):
         return len(s.s.encode())
     if isinstance(s, Tok) and s.kind == "T":
-        return interp.policy.str_len(interp, s)
+        hook = getattr(interp.policy, "str_len", None)
+        if hook is None:
+            raise Inconclusive("length of the opaque text %r" % (s,), interp.where())
+        return hook(interp, s)
     raise Inconclusive("str::len on %r" % (s,), interp.where())
 
 
 @model("core::str::<impl str>::parse")
 def m_str_parse(interp, args, info):
+    # `s.parse::<T>()` for a type of the crate is `<T as FromStr>::from_str(s)`
+    targs = info.get("targs", [])
+    if targs:
+        t = interp.prog.types[targs[0]]
+        if t.get("k") == "adt" and interp.prog.adts.get(t.get("adt"), {}).get("local"):
+            k = interp.prog.impl_method("std::str::FromStr", t["adt"], "from_str")
+            if k:
+                return interp.call_key(k, [args[0]])
     hook = getattr(interp.policy, "str_parse", None)
     if hook is None:
         raise Inconclusive("str::parse is not modelled in this analysis", interp.where())
@@ -1810,6 +1826,13 @@ def m_str_starts_with(interp, args, info):
        "core::str::<impl str>::trim_matches", "core::str::<impl str>::trim_start_matches", "core::str::<impl str>::trim_end_matches")
 def m_str_trim(interp, args, info):
     s_ = interp.strip(args[0])
+    if isinstance(s_, Tok) and s_.kind == "T" and s_.dom == "input":
+        hook = getattr(interp.policy, "stream_trim_start", None)
+        which_ = info["def"].rsplit("::", 1)[1]
+        if hook is not None and which_ in ("trim_start_matches", "trim_start"):
+            return hook(interp, s_, args[1] if which_ == "trim_start_matches" else None, info)
+        if hook is not None:
+            raise Inconclusive("%s on the input stream" % which_, interp.where())
     if isinstance(s_, Tok) and s_.kind == "T":
         # a sub-slice of the text: possibly the same text, but not in general — a different token
         return Tok("T", "trimmed(%s)" % s_.name, s_.val, dom=s_.dom)
@@ -2145,3 +2168,83 @@ def m_res_unwrap_or_default(interp, args, info):
     if targs:
         return default_of_type(interp, targs[0])
     raise Inconclusive("unwrap_or_default on Err", interp.where())
+
+
+@model("std::ops::Fn::call", "std::ops::FnMut::call_mut", "std::ops::FnOnce::call_once",
+       "<&F as std::ops::Fn<A>>::call", "<&F as std::ops::FnMut<A>>::call_mut", "<&F as std::ops::FnOnce<A>>::call_once",
+       "<&mut F as std::ops::FnMut<A>>::call_mut", "<&mut F as std::ops::FnOnce<A>>::call_once")
+def m_fn_call(interp, args, info):
+    f = args[0]
+    a = args[1] if len(args) > 1 else ()
+    if not isinstance(a, tuple):
+        raise Inconclusive("Fn::call with arguments %r" % (a,), interp.where())
+    while isinstance(f, (Ptr, BoxV)) and isinstance(interp.load(f), (Ptr, BoxV, Clo, FnV)):
+        f = interp.load(f)
+    return interp.call_value(f, list(a))
+
+
+@model("core::str::<impl str>::to_ascii_lowercase", "std::str::<impl str>::to_ascii_lowercase", "alloc::str::<impl str>::to_ascii_lowercase",
+       "std::string::String::to_ascii_lowercase")
+def m_str_to_ascii_lowercase(interp, args, info):
+    v = interp.strip(args[0])
+    if isinstance(v, StrV):
+        return StrV("".join(c.lower() if c.isascii() else c for c in v.s))
+    raise Inconclusive("to_ascii_lowercase on %r" % (v,), interp.where())
+
+
+@model("core::str::<impl str>::to_ascii_uppercase", "std::str::<impl str>::to_ascii_uppercase", "alloc::str::<impl str>::to_ascii_uppercase")
+def m_str_to_ascii_uppercase(interp, args, info):
+    v = interp.strip(args[0])
+    if isinstance(v, StrV):
+        return StrV("".join(c.upper() if c.isascii() else c for c in v.s))
+    raise Inconclusive("to_ascii_uppercase on %r" % (v,), interp.where())
+
+
+@model("core::str::<impl str>::eq_ignore_ascii_case")
+def m_str_eq_ignore_ascii_case(interp, args, info):
+    a, b = interp.strip(args[0]), interp.strip(args[1])
+    if isinstance(a, StrV) and isinstance(b, StrV):
+        return a.s.lower() == b.s.lower()
+    raise Inconclusive("eq_ignore_ascii_case on %r %r" % (a, b), interp.where())
+
+
+@model("std::vec::Vec::<T, A>::remove")
+def m_vec_remove(interp, args, info):
+    c, path, v = _vec_at(interp, args[0])
+    i = args[1]
+    if not isinstance(i, int) or isinstance(i, bool):
+        raise Inconclusive("Vec::remove(%r)" % (i,), interp.where())
+    if not 0 <= i < len(v.items):
+        raise Panic("index", interp.where(), "removal index %d out of %d" % (i, len(v.items)))
+    x = v.items[i]
+    interp.write(c, path, ListV(v.items[:i] + v.items[i + 1:]))
+    return x
+
+
+@model("std::vec::Vec::<T, A>::swap_remove")
+def m_vec_swap_remove(interp, args, info):
+    c, path, v = _vec_at(interp, args[0])
+    i = args[1]
+    if not isinstance(i, int) or isinstance(i, bool):
+        raise Inconclusive("Vec::swap_remove(%r)" % (i,), interp.where())
+    if not 0 <= i < len(v.items):
+        raise Panic("index", interp.where(), "swap_remove index %d out of %d" % (i, len(v.items)))
+    items = list(v.items)
+    x = items[i]
+    items[i] = items[-1]
+    items.pop()
+    interp.write(c, path, ListV(items))
+    return x
+
+
+@model("core::slice::<impl [T]>::windows")
+def m_slice_windows(interp, args, info):
+    c, path, n = _elem_ptr(interp, args[0], 0)
+    k = args[1]
+    if not isinstance(k, int) or isinstance(k, bool) or k <= 0:
+        raise Inconclusive("windows(%r)" % (k,), interp.where())
+    v = interp.read(c, path)
+    out = []
+    for i in range(0, max(0, n - k + 1)):
+        out.append(Ptr(Cell(ListV(tuple(Ptr(c, path + (("i", i + j),)) for j in range(k))))))
+    return IterV("vec", ListV(out))
